@@ -132,6 +132,7 @@ func main() {
 	writeIfChanged(filepath.Join(*out, "Consts.lean"), genConsts())
 	writeIfChanged(filepath.Join(*out, "Funcs.lean"), genFuncs())
 	writeIfChanged(filepath.Join(*out, "Conds.lean"), genConds())
+	writeIfChanged(filepath.Join(*out, "Opts.lean"), genOpts())
 	facts := collectFacts()
 	writeIfChanged(filepath.Join(*out, "Facts.lean"), genFacts(facts))
 	if *factsJSON != "" {
